@@ -70,8 +70,6 @@ impl<'a> VxIntoArr for &'a [u8] {
     open spec fn vx_view(self) -> Seq<u8> { self@ }
     #[verifier::external_body] fn vx_into_arr<const N: usize>(self) -> (r: [u8; N]) { self.try_into().unwrap() }
 }
-pub assume_specification<T: Clone> [<[T]>::to_vec] (s: &[T]) -> (r: Vec<T>)
-    ensures r@ == s@;
 // R6: Option<Vec<T>>::as_deref (Deref-generic in std)
 pub trait VxAsDeref<T> { fn vx_as_deref(&self) -> (r: Option<&[T]>) ensures vx_opt_slice_view(r) == self.vx_spec_view(); spec fn vx_spec_view(&self) -> Option<Seq<T>>; }
 pub open spec fn vx_opt_slice_view<T>(o: Option<&[T]>) -> Option<Seq<T>> { match o { Some(s) => Some(s@), None => None } }
@@ -354,8 +352,8 @@ pub mod p256 {
     impl From<SecretKey> for SigningKey { fn from(sk: SecretKey) -> Self { SigningKey { sk } } }
     impl SigningKey {
         #[verifier::external_body]
-        pub fn sign(&mut self, msg: &Vec<u8>) -> (r: Signature)
-            ensures r.der@ == spec_sign(spec_cose_of_secret(old(self).sk), msg@), final(self).sk == old(self).sk
+        pub fn sign(&self, msg: &Vec<u8>) -> (r: Signature)
+            ensures r.der@ == spec_sign(spec_cose_of_secret(self.sk), msg@)
         { unimplemented!() }
     }
 } }
@@ -389,8 +387,8 @@ pub mod keymodel {
     impl From<&SecretKey> for crate::p256::ecdsa::SigningKey { #[verifier::external_body] fn from(sk: &SecretKey) -> Self { unimplemented!() } }
     impl VerifyingKey { #[verifier::external_body] pub fn to_encoded_point(&self, compress: bool) -> (r: EncodedPoint) ensures r.sk@ == self.sk@ { unimplemented!() } }
     impl EncodedPoint {
-        #[verifier::external_body] pub fn x(&self) -> (r: Option<Coord>) ensures r matches Some(c) && c.v@ == spec_pub_x(self.sk@) { unimplemented!() }
-        #[verifier::external_body] pub fn y(&self) -> (r: Option<Coord>) ensures r matches Some(c) && c.v@ == spec_pub_y(self.sk@) { unimplemented!() }
+        #[verifier::external_body] pub fn x(&self) -> (r: Option<Coord>) ensures r matches Some(c) && c.v@ == spec_pub_x(self.sk@) && c.v@.len() == 32 { unimplemented!() }
+        #[verifier::external_body] pub fn y(&self) -> (r: Option<Coord>) ensures r matches Some(c) && c.v@ == spec_pub_y(self.sk@) && c.v@.len() == 32 { unimplemented!() }
     }
     impl Coord { #[verifier::external_body] pub fn as_slice(&self) -> (r: &[u8]) ensures r@ == self.v@ { unimplemented!() } }
     impl SecretKey { #[verifier::external_body] pub fn to_bytes(&self) -> (r: ScalarBytes) ensures r.v@ == spec_scalar(*self) { unimplemented!() } }
@@ -685,6 +683,71 @@ pub mod authenticator {
     }
 }
 pub use authenticator::{Authenticator, CredentialIdLength};
+
+// =====================================================================================================
+// U2F over the same authenticator (C17): real bodies of `impl U2fApi for Authenticator`
+// =====================================================================================================
+pub mod u2f_types {
+    use super::*;
+    //@ source treg passkey-types/src/u2f/register.rs
+    //@ source tauth passkey-types/src/u2f/authenticate.rs
+    //@ extract treg struct RegisterRequest
+    //@ extract treg struct PublicKey
+    //@ extract treg struct RegisterResponse
+    //@ extract treg impl PublicKey
+    //@   rule R23
+    //@ extract tauth enum AuthenticationParameter
+    //@ extract tauth struct AuthenticationRequest
+    //@ extract tauth struct AuthenticationResponse
+}
+//@ include ../_common/bytes_prelude.rs
+//@ include ../_common/bytechain_prelude.rs
+impl vstd::std_specs::convert::FromSpecImpl<Flags> for u8 {
+    open spec fn obeys_from_spec() -> bool { true }
+    open spec fn from_spec(f: Flags) -> u8 { f.bits }
+}
+//@ extract flags impl From<Flags> for u8
+pub assume_specification<'a, T: Clone> [<Vec<T> as From<&'a [T]>>::from] (s: &[T]) -> (r: Vec<T>) ensures r@ == s@;
+// application parameter -> RP ID string (`String::from(Bytes)`, base64url in the real crate: an uninterpreted injective-or-not function here)
+pub uninterp spec fn spec_app_id(app: Seq<u8>) -> Seq<char>;
+impl vstd::std_specs::convert::FromSpecImpl<Bytes> for String {
+    open spec fn obeys_from_spec() -> bool { false }
+    uninterp spec fn from_spec(b: Bytes) -> String;
+}
+impl From<Bytes> for String { #[verifier::external_body] fn from(b: Bytes) -> (r: String) ensures r@ == spec_app_id(b@) { unimplemented!() } }
+impl passkey_types::Passkey {
+    // passkey.rs `wrap_u2f_registration_request` (trusted signature): the stored credential is for that application and key handle
+    // and keeps the private COSE key it is given
+    #[verifier::external_body]
+    pub fn wrap_u2f_registration_request(request: &u2f_types::RegisterRequest, response: &u2f_types::RegisterResponse, key_handle: &[u8], private_key: &CoseKey)
+        -> (r: (passkey_types::Passkey, passkey_types::ctap2::make_credential::PublicKeyCredentialUserEntity, passkey_types::ctap2::make_credential::PublicKeyCredentialRpEntity))
+        ensures r.0.key == *private_key, r.0.credential_id@ == key_handle@, r.0.rp_id@ == spec_app_id(request.application@), r.2.id@ == spec_app_id(request.application@)
+    { unimplemented!() }
+}
+impl p256::ecdsa::Signature { #[verifier::external_body] pub fn to_vec(&self) -> (r: Vec<u8>) ensures r@ == self.der@ { unimplemented!() } }
+impl p256::ecdsa::DerSignature { #[verifier::external_body] pub fn as_bytes(&self) -> (r: &[u8]) ensures r@ == self.der@ { unimplemented!() } }
+pub mod u2f {
+    use super::*;
+    use crate::{Authenticator, CoseKeyPair, CredentialStore, UserValidationMethod};
+    use crate::coset::iana;
+    use crate::p256::{ecdsa::SigningKey, SecretKey};
+    use crate::passkey_types::{ctap2::{Flags, U2FError}, Bytes, Passkey};
+    use crate::u2f_types::{AuthenticationRequest, AuthenticationResponse, PublicKey, RegisterRequest, RegisterResponse};
+    // the signing inputs of C17
+    pub open spec fn reg_sig_input(request: RegisterRequest, handle: Seq<u8>, pk: PublicKey) -> Seq<u8> {
+        seq![0u8] + request.application@ + request.challenge@ + handle + (seq![4u8] + pk.x@ + pk.y@)
+    }
+    pub open spec fn auth_sig_input(request: AuthenticationRequest, counter: u32, presence: u8) -> Seq<u8> {
+        request.application@ + seq![presence] + counter.vx_be() + request.challenge@
+    }
+    //@ source u2fapi passkey-authenticator/src/u2f.rs
+    //@ extract u2fapi mod sealed
+    //@ extract u2fapi trait U2fApi
+    //@ extract u2fapi impl U2fApi for Authenticator
+    //@   rule R23
+    //@   rule R4d
+    //@   rule R12b
+}
 
 //@ structural cancel mc impl Authenticator / fn make_credential
 //@ structural cancel ga impl Authenticator / fn get_assertion
